@@ -230,13 +230,14 @@ class AsynchronousMemory(Logic):
         radd = self.read_address.get()
         wadd = self.write_address.get()
         
-        # always reading
-        #print(f'reading address {add} = {self.data[add]}')
-        self.readdata.put(self.data[radd])
-        
+        # the write is transparent (combinational), so it is done before reading:
+        # reading the address being written returns the new data, as in the generated Verilog
         if (self.write.get()):
             self.data[wadd] = self.writedata.get()
             
+        # always reading
+        #print(f'reading address {add} = {self.data[add]}')
+        self.readdata.put(self.data[radd])
         
     def verilogBody(self):
         
